@@ -485,7 +485,8 @@ void SimulateMsp430::update_reg(int reg_index, int mode, int bw)
 
   if (mode == 3) // @Rn+
   {
-    if (bw == BW_WORD)
+    // SP is always incremented by 2 so it stays word aligned.
+    if (bw == BW_WORD || reg_index == 1)
     {
       reg[reg_index] += 2;
     }
@@ -540,8 +541,21 @@ int SimulateMsp430::one_operand_exe(uint16_t opcode)
 
   o = (opcode & 0x0380) >> 7;
 
-  if (o == 7) { return 1; }
-  if (o == 6) { return count; }
+  // 0x1380 - 0x13ff are not instructions on the 16 bit core.
+  if (o == 7) { return -1; }
+
+  if (o == 6)
+  {
+    // RETI: pop SR, then pop PC.
+    if (opcode != 0x1300) { return -1; }
+
+    reg[2] = ram_read16(reg[1]);
+    reg[1] += 2;
+    reg[0] = ram_read16(reg[1]);
+    reg[1] += 2;
+
+    return count;
+  }
 
   As = (opcode & 0x0030) >> 4;
   bw = (opcode & 0x0040) >> 6;
@@ -595,7 +609,8 @@ int SimulateMsp430::one_operand_exe(uint16_t opcode)
       put_data(ea, reg_index, As, bw, result);
       update_reg(reg_index, As, bw);
       update_nz(result, bw);
-      update_c(result, bw);
+      // C is set if the result is not zero.
+      if ((result & 0xffff) != 0) { set_c(); } else { clear_c(); }
       clear_v();
       break;
     }
@@ -744,8 +759,8 @@ int SimulateMsp430::two_operand_exe(uint16_t opcode)
       src = get_data(src_reg, As, bw, ea);
       update_reg(src_reg, As, bw);
       dst = get_data(dst_reg, Ad, bw, ea);
+      // dst + ~src + C
       src = ((~((uint16_t)src)) & 0xffff);
-      // FIXME - Added get_c().  Test it.
       if (bw == BW_BYTE)
       {
         dst = dst & 0xff;
@@ -762,13 +777,15 @@ int SimulateMsp430::two_operand_exe(uint16_t opcode)
       src = get_data(src_reg, As, bw, ea);
       update_reg(src_reg, As, bw);
       dst = get_data(dst_reg, Ad, bw, ea);
-      src = ((~((uint16_t)src)) & 0xffff) + 1;
+      // dst + ~src + 1: the carry out of this sum (with the operands
+      // truncated to the operand size) is the C flag.
+      src = ((~((uint16_t)src)) & 0xffff);
       if (bw == BW_BYTE)
       {
         dst = dst & 0xff;
         src = src & 0xff;
       }
-      result = dst + src;
+      result = dst + src + 1;
       update_v(dst, src, result, bw);
       dst = result & 0xffff;
       put_data(ea, dst_reg, Ad, bw, dst);
@@ -779,13 +796,15 @@ int SimulateMsp430::two_operand_exe(uint16_t opcode)
       src = get_data(src_reg, As, bw, ea);
       update_reg(src_reg, As, bw);
       dst = get_data(dst_reg, Ad, bw, ea);
-      src = ((~((uint16_t)src)) & 0xffff) + 1;
+      // dst + ~src + 1: the carry out of this sum (with the operands
+      // truncated to the operand size) is the C flag.
+      src = ((~((uint16_t)src)) & 0xffff);
       if (bw == BW_BYTE)
       {
         dst = dst & 0xff;
         src = src & 0xff;
       }
-      result = dst + src;
+      result = dst + src + 1;
       update_v(dst, src, result, bw);
       dst = result & 0xffff;
       update_nz(dst, bw);
@@ -848,7 +867,14 @@ int SimulateMsp430::two_operand_exe(uint16_t opcode)
       put_data(ea, dst_reg, Ad, bw, result);
       update_nz(result, bw);
       if (result != 0) { set_c(); } else { clear_c(); }
-      if ((src & 0x8000) && (dst & 0x8000)) { set_v(); } else { clear_v(); }
+      if (bw == BW_WORD)
+      {
+        if ((src & 0x8000) && (dst & 0x8000)) { set_v(); } else { clear_v(); }
+      }
+        else
+      {
+        if ((src & 0x80) && (dst & 0x80)) { set_v(); } else { clear_v(); }
+      }
       break;
     case 15: // AND
       src = get_data(src_reg, As, bw, ea);
